@@ -14,6 +14,8 @@ Inductive case :=
 | CContains (o s : vec3 Q) (rows : list (vec3 Q * Q)) (obs : list bool)
 | CExtent (ps : list (vec3 Q)) (obs : result (fl * Z * Z))
 | CPercentile (ps : list (vec3 Q)) (axis : vec3 Q) (q : Q) (obs : result (list fl))
+(* Polyline(vs).bounding_box: None for an empty polyline, else the box (origin ++ size) *)
+| CBBox (vs : list (vec3 Q)) (obs : option (result (list fl)))
 | COracleOnly.
 
 Definition vmag (v : vec3 Q) : Q := Qmax' (Qabs (vx v)) (Qmax' (Qabs (vy v)) (Qabs (vz v))).
@@ -51,5 +53,12 @@ Definition check_case (c : case) : bool :=
                    fl_close_rel (pts_mag ps) d od && (i =? oi)%Z && (j =? oj)%Z) (extent QOps ps) obs
   | CPercentile ps axis q obs =>
       res_agree (fun r l => list_close_rel (pts_mag ps) (vlist r) l) (percentile QOps ps axis q) obs
+  | CBBox vs obs =>
+      match bounding_box QOps vs, obs with
+      | None, None => true
+      | Some m, Some o =>
+          res_agree (fun b l => list_close_rel (pts_mag vs) (vlist (borigin b) ++ vlist (bsize b)) l) m o
+      | _, _ => false
+      end
   | COracleOnly => true
   end.
